@@ -35,6 +35,12 @@ def _re_flags(kwargs) -> int:
     return fl
 
 
+def empty_forms(x):
+    """Terms that are true exactly when string term x is empty."""
+    ln = ("call", "len", (x,), ())
+    return [mk_not(x), ("cmp", "Eq", ln, const(0)), ("cmp", "Eq", x, const("")), mk_not(ln), ("cmp", "Lt", ln, const(1)), ("cmp", "LtE", ln, const(0))]
+
+
 def rule_line_basics(rep: Report, rid="C04.indent") -> None:
     """GherkinLine: trimmed text = line.lstrip(); indent = len(line) - len(trimmed) in code points; helpers."""
     I, fi, tree, rv, st = _run(f"{LQ}.__init__")
@@ -75,7 +81,9 @@ def rule_line_basics(rep: Report, rid="C04.indent") -> None:
         rep.used_function(fi.qualname)
         s = ("param", fi.params()[0])
         a = ("param", fi.params()[1]) if len(fi.params()) > 1 else None
-        rep.eq(rid, f"{name} tests the left-trimmed text", fmt(want_fn(s, a), I), fmt(rv, I), file=LFILE, line=fi.node.lineno, function=fi.qualname)
+        want = want_fn(s, a)
+        okf = rv == want or (name == "is_empty" and rv in empty_forms(("attr", s, N.TRIMMED)))
+        rep.ob(rid, f"{name} tests the left-trimmed text", okf, file=LFILE, line=fi.node.lineno, function=fi.qualname, expected=fmt(want, I), found=fmt(rv, I))
 
 
 def rule_tags(rep: Report, rid="C04.tags") -> None:
@@ -387,11 +395,11 @@ def rule_split_init(rep: Report, rid="C04.cells") -> None:
     rep.used_function(fi2.qualname)
     selft = ("param", fi2.params()[0])
     kw2 = dict(file=LFILE, line=fi2.node.lineno, function=fi2.qualname)
-    loops = [n for n, ctx in nf.iter_nodes(tree) if n[0] == "loop"]
-    if len(loops) != 1:
-        rep.ob(rid, "table_cells maps the splitter's output one to one", False, **kw2, expected="one loop", found=len(loops))
+    segs = nf.list_content(I, rv, tree) if rv[0] == "ref" else []
+    if not (len(segs) == 1 and segs[0][0] == "loop"):
+        rep.ob(rid, "table_cells maps the splitter's output one to one", False, **kw2, expected="one item per split cell", found=fmt(rv, I))
         return
-    lid = loops[0][1]
+    lid = segs[0][1]
     it = I.loops[lid].get("iter")
     g = I.obj(it)
     trimmed = ("attr", selft, N.TRIMMED)
@@ -400,8 +408,10 @@ def rule_split_init(rep: Report, rid="C04.cells") -> None:
            expected="split_table_cells(trimmed.strip())", found=[fmt(a, I) for a in g.args] if isinstance(g, HGen) else fmt(it, I))
     el = ("elem", lid)
     cell, col = ("item", el, const(0)), ("item", el, const(1))
-    app = [n for n, ctx in nf.iter_nodes(tree) if n[0] == "mutate" and n[2] == "append" and n[1] == rv]
-    rep.eq(rid, "each split cell yields one cell item, unfiltered", 1, len(app), **kw2)
+    elts = [sg for sg in segs[0][2]]
+    rep.ob(rid, "each split cell yields one cell item, unfiltered", len(elts) == 1 and elts[0][0] == "e" and not I.loops[lid].get("conds"), **kw2,
+           expected="one item per cell", found=[x[0] for x in elts])
+    app = [("mutate", rv, "append", (x[1],), None) for x in elts if x[0] == "e"]
     for n in app:
         d = nf.resolve_ref_dict(I, n[3][0], tree)
         if not d or set(d) != {"column", "text"}:
